@@ -17,7 +17,7 @@ int xv_threw; uint64_t xv_clock, xv_rmw_old; _Bool xv_cas_ok;
 #define E 3            /* thread entries */
 #endif
 #ifndef NP
-#define NP 6           /* node pool: up to NP retired nodes / orphans in total, any distribution over the lists */
+#define NP 4           /* node pool: up to NP retired nodes / orphans in total, any distribution over the lists (thorough runs: 6) */
 #endif
 #ifndef L
 #define L 3            /* abandoned chain length bound (unwinding of adopt_orphans) */
@@ -640,4 +640,24 @@ void h_dtor(void) {
     }
   }
   XV_OBL("qsbr.conserve", pool[k].next == next0[k] && n_delete == 0 && global_epoch == in_global && mon_g_stores == 0 && mon_g_cas == 0);
+}
+
+/* composed: reclaim() on the last guard with the real leave_region -> quiescent_state -> try_update_epoch: the node retired by this very
+ * call (and everything else retired in the current local epoch) is not freed by the quiescent state the call itself declares */
+void h_g_reclaim_composed(void) {
+  havoc_guards();
+  int d = nondet_int();
+  struct node* obj = mp_get(in_self);
+  XV_ASSUME(obj != 0);
+  unsigned k0 = (unsigned)(obj - pool); XV_ASSUME(home[k0] == -1);
+  XV_ASSUME(near(in_local, in_global));
+  unsigned le = in_local;
+  qsbr_g_reclaim(&ga, d);
+  unsigned l1 = entries[own].local_epoch;
+  XV_OBL("qsbr.free.on_reentry", n_delete <= 1 && (n_delete == 0 || (del_arg == &g_td.retire_lists[l1] && l1 == (le + 1) % number_epochs)));
+  XV_OBL("qsbr.free.on_reentry", n_delete == 0 || in_entries == 1);
+  XV_OBL("qsbr.reclaim.retires_once", (g_td.retire_lists[le] == obj || (n_adopt && adopt_changed[le])) && obj->next == head0[le] && obj->deleter == d && n_retire == 1);
+  XV_OBL("qsbr.guard.algebra", ga.ptr == 0 && gb.ptr == in_src);
+  check_balance(1 + NZ(in_src), NZ(in_src));
+  if (n_delete) XV_CANARY("g_reclaim_composed.freed_next_epoch"); if (in_entries == 1 && !n_delete) XV_CANARY("g_reclaim_composed.blocked");
 }
